@@ -468,6 +468,7 @@ type GhostFun struct {
 	Name string
 	Arg  string // type of the object it is attached to
 	Ret  string
+	Mem  string // "ghost T in CLASS": elements of the (slice) result live in memory class CLASS
 }
 
 type Lemma struct {
@@ -806,6 +807,10 @@ func (sp *Specs) ParseSpecFile(path string, pkg string) error {
 			i := strings.Index(rest, "(")
 			j := matchParen(rest, i)
 			g := &GhostFun{Name: strings.TrimSpace(rest[:i]), Arg: strings.TrimSpace(rest[i+1 : j]), Ret: strings.TrimSpace(rest[j+1:])}
+			if k := strings.Index(g.Ret, " in "); k > 0 {
+				g.Mem = strings.TrimSpace(g.Ret[k+4:])
+				g.Ret = strings.TrimSpace(g.Ret[:k])
+			}
 			sp.Ghosts[g.Name] = g
 		case "axiom", "lemma":
 			c, err := mkClause(l, rest)
